@@ -1125,3 +1125,87 @@ def c16(prop, tier, replay):
                    ["TLC (proves the table-level statements: injectivity, language and fixed-point round trips) and Json/IOUtils",
                     "the entry-by-entry comparison loop of the harness against the exported tables"])
     finish(prop, viol, kn)
+
+
+# ----------------------------------------------------------------------------------------
+# C04 / C05: box codecs against the reference encoder / decoder
+
+def wire_family(prop, tier, replay):
+    t0 = time.time()
+    rng = random.Random(seed())
+    wd = workdir(prop + "-" + tier)
+    known = load_known()
+    if replay:
+        cases = [json.load(open(replay))]
+        stats = []
+    else:
+        r = tlc_mc("MC_Wire", "MC_Wire", wd, workers=8, timeout=1800, coverage=False)
+        if r["violated"]:
+            raise ToolError("the reference encoder/decoder violates %s:\n%s" % (r["violated"], r["tail"][-2500:]))
+        if not r["ok"]:
+            raise ToolError("TLC failed on MC_Wire:\n" + r["tail"][-2500:])
+        cases = r["cases"]
+        stats = [{"cfg": "MC_Wire", "states": r["states"], "distinct": r["distinct"], "depth": r["depth"], "cases": len(cases),
+                  "actions": r["actions"], "wall": round(r["wall"], 1)}]
+        types = {c["t"] for c in cases}
+        if len(types) < 48:
+            raise ToolError("vacuity: only %d box types generated" % len(types))
+    for i, c in enumerate(cases):
+        c.setdefault("id", "wire-%d" % i)
+    shards = 1 if replay else 6
+    parts = [cases[i::shards] for i in range(shards)]
+
+    def one(i):
+        cp, tp = os.path.join(wd, "wire-cases-%d.ndjson" % i), os.path.join(wd, "wire-trace-%d.ndjson" % i)
+        write_ndjson(cp, parts[i])
+        mp4v(["wire-run", cp, tp])
+        r = tlc_trace("Trace_Wire", tp, wd)
+        if not r["accepted"]:
+            raise ToolError("Trace_Wire did not consume the trace:\n" + r["raw_tail"][:2000])
+        return i, r
+
+    build_harness("debug")
+    with ThreadPoolExecutor(max_workers=shards) as ex:
+        rs = list(ex.map(one, range(shards)))
+    viol, kn, events, states = [], [], 0, 0
+    for i, r in rs:
+        events += r["distinct"]
+        states += r["distinct"]
+        for f in r["fails"]:
+            if f["prop"] != prop:
+                continue
+            k = match_known(prop, f, known)
+            if k:
+                kn.append(k["what"])
+                continue
+            d = f["detail"]
+            ident = d[0] if isinstance(d, list) and d and isinstance(d[0], list) else d
+            cidx = ident[2] if isinstance(ident, list) and len(ident) >= 3 and isinstance(ident[2], int) else None
+            case = parts[i][cidx] if cidx is not None and cidx < len(parts[i]) else {"detail": d}
+            path = write_replay(prop, "%s-%s" % (case.get("t", "x").strip(), hashlib.sha1(json.dumps(case.get("v", d)).encode()).hexdigest()[:8]), case)
+            viol.append((path, "%s %s" % (f["what"], json.dumps(d)[:200])))
+    per_type = {}
+    for c in cases:
+        per_type[c["t"]] = per_type.get(c["t"], 0) + 1
+    cov = {"states": max(1, sum(s["distinct"] for s in stats) + states), "transitions": max(1, sum(s["states"] for s in stats) + events),
+           "traces_validated_against_impl": len(cases),
+           "samples": [{"t": c["t"], "mode": c.get("mode"), "v": c["v"], "enc_len": len(c["enc"])} for c in (cases[:1] + cases[len(cases) // 2:len(cases) // 2 + 1])],
+           "evaluations": len(cases), "distinct_nontrivial": len({hashlib.sha1(bytes(c["enc"])).hexdigest() for c in cases}),
+           "rule": "for each of the 48 box types every shape (version 0/1, every combination of field-gating flag bits, optional children "
+                   "present/absent, list lengths 0..2, 0..3 for tables) x three value assignments (zeros, all ones within the wire width, every "
+                   "field a distinct pattern); distinct = distinct reference encodings; all non-trivial",
+           "cases_per_type": per_type, "model_runs": stats, "exhaustive": True}
+    write_evidence(prop, tier, "model_checking", cov, time.time() - t0, len(viol),
+                   ["TLC and Json/IOUtils", "the TLA+ transcription of the ISO/IEC 14496-12/-14/-15, vpcC, 3GPP tx3g, DASH emsg and iTunes layouts (Wire*.tla), "
+                    "checked for Dec(Enc(v)) = v on the same space", "the harness's generic Debug-output reader that makes the library's decoded values observable"])
+    finish(prop, viol, kn)
+
+
+@check("C04")
+def c04(prop, tier, replay):
+    wire_family(prop, tier, replay)
+
+
+@check("C05")
+def c05(prop, tier, replay):
+    wire_family(prop, tier, replay)
